@@ -42,10 +42,10 @@ def run(tier, seed, replay=None):
     ck.mc(DIR, "PathAlgs", "NC_label.cfg", expect_violation="ClosedExact")
     ck.mc(DIR, "PathAlgs", "NC_bf.cfg", expect_violation="BfFinal")
     if tier == "thorough":
-        ck.mc(DIR, "PathAlgs", "MC_label3t.cfg", timeout=3000)
-        ck.mc(DIR, "PathAlgs", "MC_bf3t.cfg", timeout=3000)
-        ck.mc(DIR, "PathAlgs", "MC_fw3t.cfg", timeout=3000)
-        ck.mc(DIR, "PathAlgs", "MC_twin.cfg", timeout=3000)
+        ck.mc(DIR, "PathAlgs", "MC_label3t.cfg", timeout=14400)
+        ck.mc(DIR, "PathAlgs", "MC_bf3t.cfg", timeout=14400)
+        ck.mc(DIR, "PathAlgs", "MC_fw3t.cfg", timeout=14400)
+        ck.mc(DIR, "PathAlgs", "MC_twin.cfg", timeout=14400)
     ng = 600 if tier == "quick" else 4000
     gcases = [drv.gen_graph(rng, small=(i % 3 == 0)) for i in range(ng)]
     grids = []
@@ -58,7 +58,7 @@ def run(tier, seed, replay=None):
     gt = _fix(run_tasks("paths", "run_graph", gcases, timeout=60), gcases, "run_graph")
     rt = _fix(run_tasks("paths", "run_grid", grids, timeout=60), grids, "run_grid")
     trs = gt + rt
-    vs = ck.validate(DIR, "PathsTrace", trs, "every applicable solver on each graph / grid", timeout=3000)
+    vs = ck.validate(DIR, "PathsTrace", trs, "every applicable solver on each graph / grid", timeout=14400)
     ck.classify(trs, vs, nontrivial=lambda t, v: (t["kind"] == "graph" and len(t["edges"]) > 0) or (t["kind"] == "grid" and len(t["grid"]) * len(t["grid"][0]) > 1))
     for t in trs:
         for e in t["events"]:
